@@ -14,7 +14,7 @@
    Jobs/JobControlSpec.v over the history of observable events. *)
 From Coq Require Import ZArith List Bool.
 From Bardolph Require Import Jobs.Threads Jobs.JobVocab Jobs.JobControl Jobs.JobControlSpec
-  Jobs.JobControlInv3 Jobs.JobControlProofs Jobs.JobControlMeasure Jobs.JobControlExamples.
+  Jobs.JobControlSpecFacts Jobs.JobControlInv3 Jobs.JobControlProofs Jobs.JobControlMeasure Jobs.JobControlExamples.
 Import ListNotations.
 Open Scope Z_scope.
 
@@ -134,6 +134,16 @@ Theorem C08_is_running_refuted :
     registered (events older) 2.
 Proof. exact is_running_refuted. Qed.
 Print Assumptions C08_is_running_refuted.
+
+(* What the oracle means: the executable monitor that the harness runs (in Coq) on the event log
+   of the REAL JobControl accepts only histories that satisfy mutual exclusion, never-twice,
+   "each start takes the head of the queue" and "jobs begin in the order in which they were taken". *)
+Theorem C08_oracle_is_sound : forall h, accepted h ->
+  mutex (events h) /\ at_most_once (events h) /\
+  (forall older j, earlier (SDeq j :: older) (events h) -> hd_error (aqueue older) = Some j) /\
+  (exists pending, deq_order (events h) = begin_order (events h) ++ pending).
+Proof. exact accepted_sound. Qed.
+Print Assumptions C08_oracle_is_sound.
 
 (* The hypotheses are satisfiable: 2 clients x 2 jobs (add, add | insert, spawn; one job
    raises), interleaved access by access, reach a quiescent configuration after 68 accesses;
